@@ -691,3 +691,68 @@ func CtxCancelPending(res *fw.Result, seed int64) error {
 	res.Eval(true, []interface{}{"ctx-cancel-pending"})
 	return nil
 }
+
+// SilentStall: the link goes silent without closing while a call is pending.  Two configurations that the
+// keepalive scenarios of C17 do not own: keepalive switched off with a timeout configured (the read deadline
+// alone must notice), and an application that keeps issuing requests more often than the timeout (our own
+// writes must not count as signs of life).  The pending call must return with an error within a bounded
+// time and, once the link works again, new calls must be served.
+func SilentStall(d *fw.Driver, res *fw.Result, seed int64) error {
+	for i, mode := range []string{"no-pings", "poller"} {
+		const T = 150 * time.Millisecond
+		opts := []jsonrpc.Option{jsonrpc.WithTimeout(T)}
+		if mode == "no-pings" {
+			opts = append(opts, jsonrpc.WithPingInterval(0))
+		} else {
+			opts = append(opts, jsonrpc.WithPingInterval(30*time.Millisecond))
+		}
+		run, closer, cancel, err := newRunner(seed+int64(i)*7+3, 0, true, opts...)
+		if err != nil {
+			return err
+		}
+		sig := "silent stall mode=" + mode
+		c := map[string]interface{}{"scenario": "silent-stall", "mode": mode, "timeout": T.String()}
+		base := nextToks(400)
+		warm := run.Go("count", base, "warm-up")
+		warm.Wait(2 * time.Second)
+		pending := run.Go("block", base+1, "pending-at-stall")
+		for w := 0; w < 3000 && run.E.H.C.Entered(base+1) == 0; w++ {
+			time.Sleep(time.Millisecond)
+		}
+		run.E.PX.Cut(0, "blackhole")
+		stop := make(chan struct{})
+		if mode == "poller" {
+			go func() {
+				for k := 0; ; k++ {
+					select {
+					case <-stop:
+						return
+					case <-time.After(T / 4):
+					}
+					go func(k int) {
+						cctx, cc := context.WithTimeout(run.ctx, 3*time.Second)
+						defer cc()
+						run.CL.Count(cctx, base+100+k)
+					}(k)
+				}
+			}()
+		}
+		bound := 5*T + 500*time.Millisecond
+		if !pending.Wait(bound) {
+			res.Add(fw.Finding{Kind: "monitor", Signature: sig + " pending call never returns", Detail: fmt.Sprintf("a call pending when the peer fell silent had not returned %v later (timeout %v): the stall is not noticed", bound, T), Case: c})
+		} else if pending.Err == nil {
+			res.Add(fw.Finding{Kind: "monitor", Signature: sig + " pending call succeeded", Detail: "a call pending on a silent link returned a result", Case: c})
+		}
+		close(stop)
+		if !run.Probe(base+50, 4*time.Second) {
+			res.Add(fw.Finding{Kind: "monitor", Signature: sig + " never heals", Detail: "no call succeeded within 4s although new connections reach the server", Case: c})
+		}
+		run.E.H.C.Release(base + 1)
+		scenClose(res, closer, sig)
+		res.Count("silent-stall." + mode)
+		res.Eval(true, []interface{}{"silent-stall", mode})
+		cancel()
+		run.E.Close()
+	}
+	return nil
+}
